@@ -475,6 +475,23 @@ func main() {
 	qs = append(qs, qspec{"cpu", "host = 'h1' OR usage > 4"}, qspec{"cpu", "host = 'h0' OR host = 'h1' OR host = 'h2'"},
 		qspec{"mem", "region = 'r1'"}, qspec{"mem", "region = 'r0' OR region = 'r2'"}, qspec{"cpu", "host = 'h3'"},
 		qspec{"cpu", "region = 'r2'"}, qspec{"net", "host = 'h2' AND (dc = 'd0' OR dc = 'd1')"}, qspec{"net", "dc = 'd1' AND host = 'h4'"})
+	// hint queries name one full series: every tag of the series is bound by equality
+	type hq struct{ mst, cond string }
+	var hints []hq
+	for _, m := range []string{"cpu", "mem", "net", "disk"} {
+		k := 0
+		for _, rw := range written[m] {
+			if len(rw.Tags) == len(tagKeys) && k < 4 {
+				hints = append(hints, hq{m, fmt.Sprintf("dc = '%s' AND host = '%s' AND region = '%s'", rw.Tags["dc"], rw.Tags["host"], rw.Tags["region"])})
+				k++
+			}
+		}
+	}
+	if os.Getenv("C11BB_HINTS") != "" {
+		for _, h := range hints {
+			qs = append(qs, qspec{h.mst, "/*+ full_series */" + h.cond})
+		}
+	}
 	for i := 0; i < nq; i++ {
 		t := genTree(r, r.Range(1, 3))
 		cond := t.text(false)
@@ -487,6 +504,10 @@ func main() {
 	}
 	for _, q := range qs {
 		text := `SELECT idx, usage FROM "` + q.mst + `"`
+		if strings.HasPrefix(q.cond, "/*+ full_series */") {
+			q.cond = strings.TrimPrefix(q.cond, "/*+ full_series */")
+			text = `SELECT /*+ full_series */ idx, usage FROM "` + q.mst + `"`
+		}
 		if q.cond != "" {
 			text += " WHERE " + q.cond
 		}
